@@ -14,7 +14,8 @@ partial def asPV (j : Json) : R PV := do
   | "float" => pure (.float (← getNat j "v"))
   | "str" => pure (.str (← getStr j "v"))
   | "np" => pure (.npScalar (← getInt j "v"))
-  | "arr" => pure (.arr (← getStr j "dtype") (← getNats j "shape") (← getInts j "items"))
+  | "arr" => pure (.arr (← getStr j "dtype") (← getNats j "shape") (← getInts j "strides") (← getInt j "offset")
+                        (← getInts j "mem"))
   | "list" => do
     let l ← fld j "v" >>= asArr
     asPVList l
@@ -42,7 +43,11 @@ partial def jPV : PV → Json
   | .float f => Json.mkObj [("t", "float"), ("v", jNat f)]
   | .str s => Json.mkObj [("t", "str"), ("v", Json.str s)]
   | .npScalar i => Json.mkObj [("t", "np"), ("v", jInt i)]
-  | .arr d sh it => Json.mkObj [("t", "arr"), ("dtype", Json.str d), ("shape", jNats sh), ("items", jInts it)]
+  | .arr d sh st off mem =>
+    -- `items`: the elements in row-major order (for an array that came back: its buffer)
+    Json.mkObj [("t", "arr"), ("dtype", Json.str d), ("shape", jNats sh), ("strides", jInts st),
+                ("offset", jInt off), ("items", jInts (gather mem sh st off))]
+  | .payload d it => Json.mkObj [("t", "payload"), ("dtype", Json.str d), ("items", jInts it)]
   | .list l => Json.mkObj [("t", "list"), ("v", Json.arr (jPVList l).toArray)]
   | .dict kv => Json.mkObj [("t", "dict"), ("v", Json.arr (jPVDict kv).toArray)]
 partial def jPVList : PVList → List Json
